@@ -17,6 +17,8 @@ import (
 	"fmt"
 	"math/rand"
 	"os"
+
+	hg "github.com/mosaicnetworks/babble/src/hashgraph"
 	"sort"
 )
 
@@ -327,9 +329,20 @@ func beamSearch(rng *rand.Rand, n, steps, width, target int) ([]*lev, int, []*le
 }
 
 // genAdversarial builds a static DAG of n validators with (at least) one long election.
+// advJoin: a join request (of a participant that stays silent) is carried by one of the first events,
+// so that the validator set grows in the middle of the long election
+var advJoin = false
+var forceAdvJoin = false
+var advNoJoin = false
+
 func genAdversarial(rng *rand.Rand, n int, steps, width, target, tail int) (*dag, int, []*gEvent) {
 	levs, predicted, hiddenL := beamSearch(rng, n, steps, width, target)
-	d := newDag(rng, n, 0)
+	extra := 0
+	if advJoin {
+		extra = 1
+	}
+	d := newDag(rng, n, extra)
+	joinAt := n + rng.Intn(n+1)
 	heads := make([]*gEvent, n)
 	by := map[*lev]*gEvent{}
 	ts := int64(1600000000)
@@ -338,7 +351,14 @@ func genAdversarial(rng *rand.Rand, n int, steps, width, target, tail int) (*dag
 		if l.sp == nil || rng.Intn(3) == 0 {
 			ntx = 1
 		}
-		g := d.newEvent(rng, l.creator, by[l.sp], by[l.op], ntx, nil, nil, ts, 0)
+		var itxs []hg.InternalTransaction
+		var itxDesc []string
+		if advJoin && l.id == joinAt {
+			itx := hg.NewInternalTransactionJoin(*d.parts[n].peer)
+			itx.Sign(d.parts[n].key)
+			itxs, itxDesc = []hg.InternalTransaction{itx}, []string{fmt.Sprintf("+%d", n)}
+		}
+		g := d.newEvent(rng, l.creator, by[l.sp], by[l.op], ntx, itxs, itxDesc, ts, 0)
 		by[l] = g
 		heads[l.creator] = g
 		ts++
@@ -366,6 +386,8 @@ func genAdversarial(rng *rand.Rand, n int, steps, width, target, tail int) (*dag
 
 func buildAdversarialScenario(rng *rand.Rand, thorough bool) (*scenario, int) {
 	hideDeciders = rng.Intn(3) != 0
+	advJoin = (rng.Intn(3) == 0 || forceAdvJoin) && !advNoJoin
+	defer func() { advJoin = false }()
 	hideOnlyNo = rng.Intn(4) != 0
 	minTargetRound = []int{0, 1, 1, 2}[rng.Intn(4)]
 	n := []int{4, 4, 4, 5, 7}[rng.Intn(5)]
@@ -432,11 +454,24 @@ func init() {
 	}
 	runners["ADV"] = func(r *Result, thorough bool) {
 		rng := rand.New(rand.NewSource(r.Seed))
-		for i := 0; i < 40; i++ {
+		adoptOracles = map[string]bool{"C01": true, "C03": true}
+		nsc := 40
+		if os.Getenv("ADVN") != "" {
+			fmt.Sscan(os.Getenv("ADVN"), &nsc)
+		}
+		for i := 0; i < nsc; i++ {
+			forceAdvJoin = os.Getenv("ADVJOIN") != ""
 			sc, predicted := buildAdversarialScenario(rng, thorough)
 			before := len(r.Violations)
 			checkOracles(r, sc)
-			println("n", sc.opts.n0, "events", len(sc.d.events), "predicted", predicted, "real", sc.d.maxElection, "coinSteps", sc.d.coinSteps, "held back", sc.heldBack, "nodes", len(sc.nodes), "violations", len(r.Violations)-before)
+			println("n", sc.opts.n0, "events", len(sc.d.events), "predicted", predicted, "real", sc.d.maxElection, "coinSteps", sc.d.coinSteps, "held back", sc.heldBack, "nodes", len(sc.nodes), "join", sc.opts.extra, "violations", len(r.Violations)-before)
+			if len(r.Violations) > before {
+				w := r.Violations[len(r.Violations)-1].What
+				if len(w) > 400 {
+					w = w[:400]
+				}
+				println("   ", r.Violations[len(r.Violations)-1].Key, w)
+			}
 			if sc.heldBack > 0 && os.Getenv("ADVDBG") != "" {
 				for _, nd := range sc.nodes[:6] {
 					pos := -1
